@@ -366,17 +366,27 @@ Example ex_negzero_pipeline :
   end.
 Proof. vm_compute. split; reflexivity. Qed.
 
-(* outside the theorems: an iterator moved onto the top-level value by two
-   AdvanceInto calls keeps the whole tape as its scope; MarshalJSON prints the
-   value, runs into the closing root word and returns an error ("no content
-   queued in iterator"; with a following root: "root tag open, but not at top
-   of stack").  The Go code behaves the same way. *)
-Example ex_inner_iterator_error :
+(* an iterator moved onto the top-level value by two AdvanceInto calls keeps the
+   whole tape as its scope; so does the iterator ParsedJson.ForEach hands out
+   (its scope ends with the closing root word).  MarshalJSON prints the value and
+   runs into the closing root: before fix F20 that was an error ("no content
+   queued in iterator"), now the value's text is the result. *)
+Example ex_inner_iterator_marshals :
   (do r1 <- advance_into ex_pj (iter0 ex_pj); do r2 <- advance_into ex_pj (fst r1);
-   marshal_iter ex_pj (fst r2)) = Err /\
+   marshal_iter ex_pj (fst r2)) = Ok ["["; "1"; ","; "t"; "r"; "u"; "e"; "]"]%byte /\
   (do r1 <- advance_into ex_pj (iter0 ex_pj); marshal_iter ex_pj (fst r1))
     = Ok ["["; "1"; ","; "t"; "r"; "u"; "e"; "]"]%byte.
 Proof. vm_compute. split; reflexivity. Qed.
+
+(* the iterator ParsedJson.ForEach passes to its callback: AdvanceIter on the root (the
+   destination's scope ends with the closing root word), then AdvanceInto *)
+Example ex_foreach_iterator_marshals :
+  (do r <- advance_iter ex_pj (iter0 ex_pj);
+   match r with
+   | (_, Some d, _) => do r2 <- advance_into ex_pj d; marshal_iter ex_pj (fst r2)
+   | _ => Err
+   end) = Ok ["["; "1"; ","; "t"; "r"; "u"; "e"; "]"]%byte.
+Proof. vm_compute. reflexivity. Qed.
 
 Print Assumptions C10a_marshal_refines.
 Print Assumptions C10b_text_valid.
